@@ -42,7 +42,7 @@ impl CachedInfoset {
             let thread_rng = || crate::verif::site_rng(&self.verif, thread_rng());
             let res = Multinomial::new(&self.reg.strat).sample(&mut thread_rng());
             #[cfg(feature = "verif-hooks")]
-            let res = crate::verif::draw(&self.verif, &self.reg.strat, res);
+            let res = crate::verif::draw_noted(&self.verif, res);
             self.cached = res + 1;
             res
         } else {
